@@ -11,7 +11,7 @@ package planner
 // queryPlan.Execute is checked against these preconditions (everything else in Execute - Init, the
 // goroutine fan-out of the pattern stage - is outside the subset and havoced).
 //@ ghost field queryPlan.#stage Int
-//@ props C12 C13 C11 C03 C08
+//@ props C12 C13 C11 C03 C08 C20
 // organizeFilterOptionsByClause sorts the FILTER clauses by the graph clause they apply to. ASSUMED:
 // it only reads its arguments and allocates its result (no driver call, nothing else written).
 //@ func organizeFilterOptionsByClause
@@ -21,13 +21,14 @@ package planner
 // of them is returned. (What the clauses compute is C03; here: error propagation and the stage.)
 //@ func (p *queryPlan) processGraphPattern
 //@   opt modifies-everything
-//@   opt obligations post:driver invariant
+//@   opt obligations post:driver post:plan invariant
 //@   requires[stage] p != nil && p.#stage == 0
 //@   requires p.stm != nil && p.tbl != nil && lo != nil && (forall k int :: {p.clauses[k]} 0 <= k && k < len(p.clauses) ==> p.clauses[k] != nil)
 //@   ghostset p.#stage = 1
 //@   ensures[stage] p.#stage == 1
+//@   ensures[plan-untouched] p.stm == old(p.stm) && p.tbl == old(p.tbl)
 //@   ensures[driver-error-surfaces@C20] $driverFailed && !old($driverFailed) ==> result != nil
-//@   loop 0 invariant[no-failure-so-far] ($driverFailed ==> old($driverFailed)) && p.stm != nil && p.tbl != nil && p.clauses == old(p.clauses) && 0 <= $i && $i <= len(p.clauses)
+//@   loop 0 invariant[no-failure-so-far] ($driverFailed ==> old($driverFailed)) && p.stm != nil && p.tbl != nil && p.stm == old(p.stm) && p.tbl == old(p.tbl) && p.clauses == old(p.clauses) && 0 <= $i && $i <= len(p.clauses)
 // projectAndGroupBy (C11). With GROUP BY: the table is reduced with one accumulator per projection -
 // none for a plain binding, a counter for COUNT, a distinct counter for COUNT(DISTINCT ...), an
 // int64 or float64 adder for SUM according to the literal in the first row - under the projection's
@@ -43,6 +44,7 @@ package planner
 //@   requires[a-group-by-binding-is-projected] len(p.stm.groupBy) > 0 ==> (exists k int :: {p.stm.projection[k]} 0 <= k && k < len(p.stm.projection) && (exists g int :: {p.stm.groupBy[g]} 0 <= g && g < len(p.stm.groupBy) && p.stm.groupBy[g] == p.stm.projection[k].Binding))
 //@   requires[rows-carry-the-projected-bindings] forall j int, k int :: {p.tbl.Data[j], p.stm.projection[k]} 0 <= j && j < len(p.tbl.Data) && 0 <= k && k < len(p.stm.projection) ==> p.tbl.Data[j] != nil && has(p.tbl.Data[j], p.stm.projection[k].Binding) && wfCell(p.tbl.Data[j][p.stm.projection[k].Binding])
 //@   ensures[table-error-surfaces] p.tbl.#failed && !old(p.tbl.#failed) ==> result != nil
+//@   ensures[plan-untouched] p.stm == old(p.stm) && p.tbl == old(p.tbl)
 //@   loop 0 invariant p.tbl == old(p.tbl) && p.stm == old(p.stm) && p.tbl.#lock_mu == 0 && p.tbl.#failed == old(p.tbl.#failed) && p.tbl.mbs != nil && bindingSet(p.tbl.mbs)
 //@   loop 1 invariant p.tbl == old(p.tbl) && p.stm == old(p.stm) && p.tbl.#lock_mu == 0 && p.tbl.#failed == old(p.tbl.#failed) && p.tbl.mbs != nil && bindingSet(p.tbl.mbs)
 //@   loop 2 invariant[frame] p.tbl == old(p.tbl) && p.stm == old(p.stm) && p.stm.projection == old(p.stm.projection) && p.stm.groupBy == old(p.stm.groupBy) && p.tbl.#lock_mu == 0 && p.tbl.#failed == old(p.tbl.#failed) && p.tbl.Data == old(p.tbl.Data) && 0 <= $i && $i <= len(p.stm.projection) && mapBindings != nil
@@ -57,13 +59,13 @@ package planner
 //@   atcall Reduce assert[sorted-by-projected-group-bindings] forall c int :: {cfg[c]} 0 <= c && c < len(cfg) ==> !cfg[c].Desc && (exists g int :: {p.stm.groupBy[g]} 0 <= g && g < len(p.stm.groupBy) && p.stm.groupBy[g] == cfg[c].Binding) && (exists k int :: {p.stm.projection[k]} 0 <= k && k < len(p.stm.projection) && p.stm.projection[k].Binding == cfg[c].Binding)
 //@ func (p *queryPlan) Execute
 //@   opt modifies-everything
-//@   opt obligations pre:stage post:all-stages-ran post:driver
-//@   requires p != nil && p.#stage == 0
+//@   opt obligations pre:stage post:all-stages-ran post:driver post:table-or-error
+//@   requires p != nil && p.#stage == 0 && p.tbl != nil
 //@   ensures[all-stages-ran] result1 == nil ==> p.#stage == 5
 //@   ensures[driver-error-surfaces@C20] $driverFailed && !old($driverFailed) ==> result1 != nil
 // ASSUMED (not generated as obligations, see `opt obligations`): what the query stages leave alone and
 // what the table they return looks like - used by constructPlan.Execute only.
-//@   ensures[assumed-table-or-error] (result0 != nil && result1 == nil) || (result0 == nil && result1 != nil)
+//@   ensures[table-or-error@C20] (result0 != nil && result1 == nil) || (result0 == nil && result1 != nil)
 //@   ensures[assumed-result-table] result0 != nil ==> result0.#lock_mu == 0 && (forall j int :: {result0.Data[j]} 0 <= j && j < len(result0.Data) ==> result0.Data[j] != nil && wfRow(result0.Data[j]))
 //@   ensures[assumed-templates-stay-well-formed] forall cc *semantic.ConstructClause :: {cc.predicateObjectPairs} {old(cc.predicateObjectPairs)} old(wfConstructClause(cc)) ==> wfConstructClause(cc)
 //@   ensures[assumed-construct-state-untouched] (forall c *constructPlan :: {c.stm} old(allocated(c)) ==> c.stm == old(c.stm) && c.store == old(c.store) && c.bulkSize == old(c.bulkSize) && c.construct == old(c.construct) && c.tracer == old(c.tracer)) && (forall s *semantic.Statement :: {s.constructClauses} old(allocated(s)) ==> s.constructClauses == old(s.constructClauses) && s.outputGraphNames == old(s.outputGraphNames)) && (forall cc *semantic.ConstructClause :: {cc.predicateObjectPairs} old(allocated(cc)) ==> cc.S == old(cc.S) && cc.SBinding == old(cc.SBinding) && cc.predicateObjectPairs == old(cc.predicateObjectPairs)) && (forall q *semantic.ConstructPredicateObjectPair :: {q.O} old(allocated(q)) ==> q.O == old(q.O) && q.P == old(q.P))
@@ -462,7 +464,7 @@ package planner
 //@ func (p *constructPlan) Execute
 //@   opt go-sequential
 //@   opt modifies-everything
-//@   requires p != nil && p.stm != nil && p.store != nil && p.queryPlan != nil && p.queryPlan.#stage == 0 && p.bulkSize >= 0 && allocated(p.stm) && allocated(p.queryPlan)
+//@   requires p != nil && p.stm != nil && p.store != nil && p.queryPlan != nil && p.queryPlan.tbl != nil && p.queryPlan.#stage == 0 && p.bulkSize >= 0 && allocated(p.stm) && allocated(p.queryPlan)
 //@   requires[templates-well-formed] forall k int :: {p.stm.constructClauses[k]} 0 <= k && k < len(p.stm.constructClauses) ==> wfConstructClause(p.stm.constructClauses[k])
 //@   ensures[table-or-error] (result0 != nil && result1 == nil) || (result0 == nil && result1 != nil)
 //@   ensures[driver-error-surfaces@C20] $driverFailed && !old($driverFailed) ==> result1 != nil
